@@ -640,7 +640,10 @@ class OpsMixin:
                 out.sym_elem_of = f"{v.kind}.{name}"
                 return out
             if name == "_fields":
-                raise AnalysisError("reflection on a template node")
+                cls = getattr(ast, v.kind, None)
+                if cls is None or v.kind.startswith("$"):
+                    raise AnalysisError("reflection on a template node")
+                return PTuple([Cst(f) for f in cls._fields])
             info = asdl.field_info(v.kind, name)
             if info and info[1] == "?":
                 return Cst(None)
